@@ -4,6 +4,7 @@ package broker
 
 import (
 	"fmt"
+	"math/rand"
 	"testing"
 
 	"github.com/KafScale/platform/internal/verifkit"
@@ -24,7 +25,19 @@ type c13Obs struct {
 	model      map[c13Key]int64  // topic/partition -> offset of the last commit answered 0
 	removedBy  map[string]string // member id -> "expiry" | "leave" (how it stopped being a member)
 
-	staleRejected, staleFormer, acceptedCurrent, staleFromExpired, staleCommits int
+	// identity by ACTOR (client slot), not by the strings it presents: live[slot][id] = the membership this
+	// client obtained under member id `id` (a join reply handed it that id and the stored group listed it) is
+	// still going: it has not left (leave answered 0) and the id has been in the stored group at every
+	// observation since. Once ended it stays ended until the client joins again and is handed that id.
+	live map[int]map[string]bool
+	// overlapped pair in progress: bookkeeping as it was when the pair started (a request of the pair is
+	// judged by what held when it was sent, the other request may have changed it since)
+	pair       int
+	liveAtPair map[int]map[string]bool
+	pairGen    int32
+	pairHave   bool
+
+	staleRejected, staleFormer, acceptedCurrent, staleFromExpired, staleCommits, departedAfterRebirth int
 }
 
 func (o *c13Obs) violate(w *gWorld, ev *gEvent, class, summary string, extra map[string]any) {
@@ -49,10 +62,50 @@ func (o *c13Obs) everTold(w *gWorld, id string, gen int32) bool {
 	return false
 }
 
+// ownID: was this client itself ever handed member id `id` by a join reply?
+func c13OwnID(w *gWorld, slot int, id string) bool {
+	if slot < 0 || slot >= len(w.slots) || id == "" {
+		return false
+	}
+	for _, h := range w.slots[slot].Hist {
+		if h.ID == id {
+			return true
+		}
+	}
+	return false
+}
+
+func c13CopyLive(m map[int]map[string]bool) map[int]map[string]bool {
+	out := map[int]map[string]bool{}
+	for s, ids := range m {
+		out[s] = map[string]bool{}
+		for id, v := range ids {
+			out[s][id] = v
+		}
+	}
+	return out
+}
+
 func (o *c13Obs) observe(w *gWorld, ev *gEvent) {
 	b, a := ev.Before, ev.After
+	if o.live == nil {
+		o.live = map[int]map[string]bool{}
+	}
 	if ev.K == "failover" {
 		o.failedOver = true
+	}
+	live := o.live
+	if ev.overlapped() {
+		if ev.Pair != o.pair {
+			o.pair, o.liveAtPair, o.pairGen, o.pairHave = ev.Pair, c13CopyLive(o.live), o.lastGen, o.haveGen
+		}
+		live = o.liveAtPair
+	}
+	absentSeen := false
+	for _, c := range ev.afters() {
+		if !c.Exists {
+			absentSeen = true
+		}
 	}
 	// how did members disappear (bookkeeping only, for coverage)
 	for id := range b.Members {
@@ -64,12 +117,45 @@ func (o *c13Obs) observe(w *gWorld, ev *gEvent) {
 			}
 		}
 	}
+	defer func() {
+		// actor bookkeeping, applied after the event was judged
+		switch ev.K {
+		case "join":
+			if ev.MemberID != "" && (ev.Code == 0 || ev.Code == 27) && a.has(ev.MemberID) {
+				if o.live[ev.Slot] == nil {
+					o.live[ev.Slot] = map[string]bool{}
+				}
+				o.live[ev.Slot][ev.MemberID] = true
+			}
+		case "leave":
+			if ev.Code == 0 && o.live[ev.Slot] != nil {
+				o.live[ev.Slot][ev.ReqID] = false
+			}
+		}
+		for _, ids := range o.live {
+			for id, v := range ids {
+				if v && !a.has(id) {
+					ids[id] = false
+				}
+			}
+		}
+		if !a.Exists || (ev.overlapped() && absentSeen) {
+			// the group is gone (or was gone at some instant of an overlapped pair): a later incarnation may start over
+			o.haveGen = false
+		}
+	}()
 	switch ev.K {
 	case "join":
 		if ev.Code >= 0 {
 			o.r.Count("generations_reported", 1)
-			if o.haveGen && ev.Gen < o.lastGen {
-				o.violate(w, ev, "generation_decreased", fmt.Sprintf("join reply reports generation %d after the same group reported %d", ev.Gen, o.lastGen), nil)
+			have, floor := o.haveGen, o.lastGen
+			if ev.overlapped() {
+				// two requests in flight: their replies may arrive in either order; each is compared with what
+				// had been reported before the pair started
+				have, floor = o.pairHave && !absentSeen, o.pairGen
+			}
+			if have && ev.Gen < floor {
+				o.violate(w, ev, "generation_decreased", fmt.Sprintf("join reply reports generation %d after the same group reported %d", ev.Gen, floor), nil)
 			}
 			if !o.haveGen || ev.Gen > o.lastGen {
 				o.lastGen, o.haveGen = ev.Gen, true
@@ -79,8 +165,17 @@ func (o *c13Obs) observe(w *gWorld, ev *gEvent) {
 		if ev.Code < 0 {
 			return
 		}
-		current := b.Exists && b.has(ev.ReqID) && b.Gen == ev.ReqGen
-		if current {
+		// by the stored record: overlapped requests are "current" if they were in ANY snapshot of the pair
+		current := false
+		for _, c := range ev.befores() {
+			if c.Exists && c.has(ev.ReqID) && c.Gen == ev.ReqGen {
+				current = true
+			}
+		}
+		// by actor: the client presents a member id it was once handed itself, but that membership has ended
+		// and it has not joined again since. Whoever holds that id string now, this client is not a member.
+		departed := c13OwnID(w, ev.Slot, ev.ReqID) && !live[ev.Slot][ev.ReqID]
+		if current && !departed {
 			if ev.K == "commit" && ev.Code == 0 {
 				o.model[c13Key{ev.Topic, ev.Part}] = ev.Offset
 				o.acceptedCurrent++
@@ -96,9 +191,17 @@ func (o *c13Obs) observe(w *gWorld, ev *gEvent) {
 		} else if !b.has(ev.ReqID) {
 			reason = "unknown_member"
 		}
+		if current && departed {
+			reason = "former_member_whose_id_was_handed_out_again"
+		}
 		o.r.Count("stale_"+ev.K+"_"+reason, 1)
 		former := o.everTold(w, ev.ReqID, ev.ReqGen)
 		if ev.Code == 0 {
+			if current && departed {
+				o.violate(w, ev, fmt.Sprintf("%s_accepted_%s", ev.K, reason),
+					fmt.Sprintf("%s from client %d with (%q, generation %d) answered 0: that client's membership under this id ended (it left, or the id was observed absent from the stored group) and it has not joined since; the id is now held by another client. group record before the request: generation=%d members=%v", ev.K, ev.Slot, ev.ReqID, ev.ReqGen, b.Gen, b.memberIDs()), nil)
+				return
+			}
 			o.violate(w, ev, fmt.Sprintf("%s_accepted_%s", ev.K, reason),
 				fmt.Sprintf("%s from (%q, generation %d) answered 0; group record before the request: exists=%v generation=%d members=%v", ev.K, ev.ReqID, ev.ReqGen, b.Exists, b.Gen, b.memberIDs()), nil)
 			return
@@ -107,6 +210,10 @@ func (o *c13Obs) observe(w *gWorld, ev *gEvent) {
 		if former {
 			o.staleFormer++
 			o.r.Count("stale_requests_from_formerly_valid_identity_rejected", 1)
+		}
+		if departed && b.Exists {
+			o.departedAfterRebirth++
+			o.r.Count("requests_by_departed_client_with_own_old_identity_while_group_exists_rejected", 1)
 		}
 		if ev.K == "commit" {
 			o.staleCommits++
@@ -118,6 +225,9 @@ func (o *c13Obs) observe(w *gWorld, ev *gEvent) {
 				o.violate(w, ev, "rejected_commit_wrote_offset", fmt.Sprintf("commit from (%q, %d) answered %d but the coordinator called CommitConsumerOffset %d times", ev.ReqID, ev.ReqGen, ev.Code, ev.CommitCalls), nil)
 				return
 			}
+			if ev.overlapped() {
+				break // the other request of the pair may be an accepted commit: the read-back is left to later requests
+			}
 			// read back: neither the target nor any offset ever accepted moved
 			for k, want := range o.model {
 				if got := w.storedOffset(k.T, k.P); got != want {
@@ -127,16 +237,93 @@ func (o *c13Obs) observe(w *gWorld, ev *gEvent) {
 			}
 		}
 	}
-	if !a.Exists {
-		// the group is gone: a later incarnation may start over
-		o.haveGen = false
+}
+
+// c13GenRebirth: the group dies and is born again. Clients of a first incarnation all leave or fall silent
+// until the coordinator has removed the last of them (the group record is deleted); OTHER clients then form
+// the group anew; the departed ones come back with what they remember (their member id and every generation
+// they were told) and send heartbeats, syncs and commits; some of them then join properly and act again.
+func c13GenRebirth(rng *rand.Rand, p gProfile, group string) (gConfig, []gOp) {
+	cfg := gGenConfig(rng, p, group)
+	cfg.M = 2 + rng.Intn(3)
+	for len(cfg.SessionMs) < cfg.M {
+		cfg.SessionMs = append(cfg.SessionMs, p.Sessions[rng.Intn(len(p.Sessions))])
+		cfg.RebalMs = append(cfg.RebalMs, cfg.RebalMs[0])
 	}
+	cfg.SessionMs, cfg.RebalMs = cfg.SessionMs[:cfg.M], cfg.RebalMs[:cfg.M]
+	maxS := int64(0)
+	for _, s := range cfg.SessionMs {
+		if s > maxS {
+			maxS = s
+		}
+	}
+	var ops []gOp
+	commit := func(slot int, ident string) gOp {
+		return gOp{K: "commit", Slot: slot, Topic: cfg.Universe[rng.Intn(len(cfg.Universe))], Part: int32(rng.Intn(5)), Ident: ident, Pick: rng.Intn(64)}
+	}
+	k := 1 + rng.Intn(cfg.M-1) // clients 0..k-1 form the first incarnation
+	for i := 0; i < k; i++ {
+		ops = append(ops, gOp{K: "join", Slot: i, Sub: gRandSub(rng, cfg.Universe)})
+	}
+	if rng.Intn(4) != 0 {
+		ops = append(ops, gOp{K: "settle"})
+		for i := 0; i < k; i++ {
+			if rng.Intn(2) == 0 {
+				ops = append(ops, commit(i, ""))
+			}
+		}
+	}
+	if rng.Intn(3) == 0 { // a few more generations before the end
+		ops = append(ops, gOp{K: "join", Slot: rng.Intn(k), Sub: gRandSub(rng, cfg.Universe)}, gOp{K: "settle"})
+	}
+	mode := rng.Intn(3) // 0 everybody leaves, 1 everybody falls silent, 2 mixed
+	for i := 0; i < k; i++ {
+		if mode == 0 || (mode == 2 && rng.Intn(2) == 0) {
+			ops = append(ops, gOp{K: "leave", Slot: i})
+		}
+	}
+	if mode != 0 || rng.Intn(2) == 0 {
+		ops = append(ops, gOp{K: "advance", DtMs: maxS + 2*cfg.CleanupMs + rng.Int63n(2000)})
+	}
+	nNew := 1 + rng.Intn(cfg.M-k)
+	for j := k; j < k+nNew; j++ {
+		ops = append(ops, gOp{K: "join", Slot: j, Sub: gRandSub(rng, cfg.Universe)})
+	}
+	if rng.Intn(5) != 0 {
+		ops = append(ops, gOp{K: "settle"})
+	}
+	for j := k; j < k+nNew; j++ {
+		if rng.Intn(2) == 0 {
+			ops = append(ops, commit(j, ""))
+		}
+	}
+	for i := 0; i < k; i++ {
+		for n := 1 + rng.Intn(3); n > 0; n-- {
+			ident := []string{"", "stale", "stale"}[rng.Intn(3)]
+			switch rng.Intn(3) {
+			case 0:
+				ops = append(ops, gOp{K: "hb", Slot: i, Ident: ident, Pick: rng.Intn(64)})
+			case 1:
+				ops = append(ops, gOp{K: "sync", Slot: i, Ident: ident, Pick: rng.Intn(64)})
+			default:
+				ops = append(ops, commit(i, ident))
+			}
+		}
+	}
+	if rng.Intn(2) == 0 { // a departed client joins properly and acts again
+		i := rng.Intn(k)
+		ops = append(ops, gOp{K: "join", Slot: i}, gOp{K: "settle"}, commit(i, ""), gOp{K: "hb", Slot: i})
+	}
+	sp := p
+	sp.MinOps, sp.MaxOps = 0, 8
+	ops = append(ops, gGenOps(rng, sp, cfg)...)
+	return cfg, ops
 }
 
 func TestVerifC13(t *testing.T) {
 	r := verifkit.Start(t, "C13", "group")
 	gSeedSalt = r.Seed
-	defer r.Finish("real GroupCoordinator over the real InMemoryStore behind a recording store decorator, on synctest virtual time; PRNG op lists with hostile identities: heartbeat/sync/commit are sent with the member's own (id, generation), with any pair it was told earlier (before a rebalance, before it left, before it was expired), with another member's id, an invented id, an empty id, generation+-1. A request is 'not of the current generation' iff, in the group record stored before it, the group is absent, the id is not a member or the generation differs. Such a request must get a non-zero code; a commit among them must cause zero CommitConsumerOffset calls and the target offset must read back as the last commit answered 0 (every commit carries a unique offset). Generations in JoinGroup replies never decrease between two observations of the group being absent. A low-weight failover op is included; violations seen only after a failover get the class prefix after_failover:. non-trivial = case where a formerly valid identity was rejected and a current member's commit was accepted",
+	defer r.Finish("real GroupCoordinator over the real InMemoryStore behind a recording store decorator, on synctest virtual time; PRNG op lists with hostile identities: heartbeat/sync/commit are sent with the member's own (id, generation), with any pair it was told earlier (before a rebalance, before it left, before it was expired), with another member's id, an invented id, an empty id, generation+-1. A request is 'not of the current generation' iff, in the group record stored before it, the group is absent, the id is not a member or the generation differs. Such a request must get a non-zero code; a commit among them must cause zero CommitConsumerOffset calls and the target offset must read back as the last commit answered 0 (every commit carries a unique offset). Generations in JoinGroup replies never decrease between two observations of the group being absent. Membership is also tracked per CLIENT (actor), whatever strings it presents: a client whose membership under a member id ended (its LeaveGroup was answered 0, or that id was observed absent from the stored group / the group record was deleted) and that has not joined again and been handed that id since is not a member; a heartbeat/sync/commit it sends with that id must be rejected even if the stored group lists the same id string again (for another client). A third of the single-group cases are teardown/rebirth scenarios: all clients of a first incarnation leave or fall silent until the group record is deleted, OTHER clients re-create the group, settle and commit, then the departed clients send heartbeats/syncs/commits with their last and with every earlier (id, generation), and some of them join properly and act again. A low-weight failover op is included; violations seen only after a failover get the class prefix after_failover:. non-trivial = case where a formerly valid identity was rejected and a current member's commit was accepted",
 		"group record in the store (written by the coordinator on every change) is the ground truth for 'current generation'", "a request by a listed member that carries the current generation but has not re-joined it yet is not judged (the statement does not say)")
 	p := gDefaultProfile
 	p.PStale = 0.45
@@ -184,8 +371,15 @@ func TestVerifC13(t *testing.T) {
 			r.Count("cases_with_two_groups_on_one_coordinator", 1)
 			continue
 		}
-		cfg := gGenConfig(rng, p, fmt.Sprintf("g%d", ci))
-		ops := gGenOps(rng, p, cfg)
+		var cfg gConfig
+		var ops []gOp
+		if ci%3 == 1 { // the group dies, other clients re-create it, the departed come back with their old identities
+			cfg, ops = c13GenRebirth(rng, p, fmt.Sprintf("g%d", ci))
+			r.Count("cases_group_torn_down_and_recreated", 1)
+		} else {
+			cfg = gGenConfig(rng, p, fmt.Sprintf("g%d", ci))
+			ops = gGenOps(rng, p, cfg)
+		}
 		var o *c13Obs
 		w := gRunCase(t, cfg, ops, int64(ci)*100000, func(w *gWorld) {
 			o = mk(w)
@@ -193,10 +387,62 @@ func TestVerifC13(t *testing.T) {
 		})
 		account(ci, w, o)
 	}
+	r.Floor("requests_by_departed_client_with_own_old_identity_while_group_exists_rejected", 100)
 	r.Floor("stale_requests_rejected", 1000)
 	r.Floor("stale_requests_from_formerly_valid_identity_rejected", 150)
 	r.Floor("stale_commit_from_expired_member_rejected", 10)
 	r.Floor("current_commits_accepted", 200)
 	r.Floor("group_states", 12)
 	r.Exhaustive(false) // a sample of histories; the bounded-exhaustive part is leg enum
+}
+
+// Overlap leg: two requests in flight. See harness/_shared/group/overlap_test.go.
+func TestVerifC13Overlap(t *testing.T) {
+	r := verifkit.Start(t, "C13", "overlap")
+	gSeedSalt = r.Seed
+	gRealTimerStart()
+	defer r.Finish("real GroupCoordinator over the real InMemoryStore behind the recording store decorator, synctest virtual time, TWO requests in flight: PRNG scenarios for 2-4 clients in which the group is brought into some phase and then a pair (A,B) of requests by different clients is overlapped: the decorator parks one store call of A (CommitConsumerOffset of a commit, PutConsumerGroup of a heartbeat / join / sync / leave, Metadata of the leader's sync, FetchConsumerGroup; before or after the real store executed it), B (leave, new member, re-join, time advance that expires sessions = a rebalance; or heartbeat / sync / commit with own, stale, foreign or invented identity) is sent while A is parked, then A is released; settle rounds and ordinary requests with hostile identities follow. If the coordinator holds a lock across A's store call (TryLock probe of its mutex fields) B is simply sent after A and everything is judged as in leg 'group'. Otherwise both replies are judged after both have arrived: a heartbeat/sync/commit of the pair counts as 'of the current generation' if the stored group listed its (id, generation) in ANY boundary snapshot taken while A was in flight (it was current when it was checked; a rebalance that overtakes it does not make the reply wrong), and must be rejected, with zero CommitConsumerOffset calls attributable to it (calls are attributed by the unique offset each commit carries), if it was in none, or if the sending client's membership under that id had ended before the pair started. Generations in the two join replies of a pair are each compared with what had been reported before the pair. The offset read-back after a rejected commit is done at sequential requests only. non-trivial = case in which B ran inside A's store call, a stale identity was rejected and a current member's commit was accepted",
+		"group record in the store (written by the coordinator on every change) is the ground truth for 'current generation'", "a request by a listed member that carries the current generation but has not re-joined it yet is not judged (the statement does not say)", "the real-time bound under which B is awaited while A is parked is a scheduling aid: if it expires nothing is judged and the case is cut")
+	p := gDefaultOvlProfile
+	p.PStale = 0.35
+	p.WA = map[string]int{"syncleader": 2, "sync": 2, "join": 3, "joinresub": 1, "joinfresh": 1, "hb": 4, "commit": 10, "leave": 1}
+	p.WB = map[string]int{"leave": 5, "joinfresh": 3, "joinresub": 2, "join": 1, "hb": 2, "commit": 4, "sync": 2, "expire": 3}
+	n := r.N(500, 8000)
+	for ci := 0; ci < n; ci++ {
+		rng := r.Rand(ci)
+		cfg, ops := gGenOverlapCase(rng, p, fmt.Sprintf("o%d", ci))
+		var o *c13Obs
+		w := gRunCase(t, cfg, ops, int64(ci)*100000, func(w *gWorld) {
+			o = &c13Obs{r: r, model: map[c13Key]int64{}, removedBy: map[string]string{}}
+			for _, tp := range w.cfg.Universe {
+				for pt := int32(0); pt < 5; pt++ {
+					o.model[c13Key{tp, pt}] = w.storedOffset(tp, pt)
+				}
+			}
+			w.obs = append(w.obs, o.observe, func(w *gWorld, ev *gEvent) { r.Seen("group_states", w.stateSig(ev.After)) })
+		})
+		if w.blocked {
+			r.Inconclusive(fmt.Sprintf("case %d: a coordinator call never returned", ci))
+		}
+		r.Case(gOpsSig(w), w.ovl.Inside > 0 && o.staleRejected > 0 && o.acceptedCurrent > 0)
+		r.Count("steps", int64(len(w.log)))
+		r.Count("stale_requests_rejected", int64(o.staleRejected))
+		r.Count("stale_commits_checked_against_store", int64(o.staleCommits))
+		r.Count("current_commits_accepted", int64(o.acceptedCurrent))
+		for _, e := range w.log {
+			if e.Ovl == "A" && e.K == "commit" && e.Code == 0 && !gTruthEqual(e.Cands[0], e.Cands[len(e.Cands)-1]) {
+				r.Count("accepted_commits_overtaken_by_a_group_change_while_in_the_store_call", 1)
+			}
+		}
+		gOvlAccount(w, r.Count, r.Seen)
+		if ci < 2 {
+			r.Sample(gWitness(w, -1, nil))
+		}
+	}
+	r.Floor("stale_requests_rejected", 300)
+	r.Floor("current_commits_accepted", 200)
+	r.Floor("overlap_a_parked", int64(r.N(200, 3000)))
+	r.Floor("overlap_b_ran_inside_a_store_call", int64(r.N(50, 800))) // CommitConsumerOffset is called without the coordinator's lock
+	r.Floor("accepted_commits_overtaken_by_a_group_change_while_in_the_store_call", 10)
+	r.Exhaustive(false)
 }
